@@ -154,8 +154,15 @@ def run_shard(sh, rec):
     hi = 24 if tier == "quick" else 64
     nobj = 8 if tier == "quick" else 20
     raises = f"fastdiag{d}d-solve-raises"
+    prev_shape = None
     for k in range(nobj):
         shape, scls = _shape(rng, d, hi, k, sh["idx"])
+        if prev_shape is not None and k % 3 == 2:
+            # sibling object: same shape/precision as the previous object of this process but (below) an independently drawn
+            # spacing - anything memoised across solver objects under an incomplete key is hit here
+            shape, scls = prev_shape
+            rec.count("sibling_objects_same_shape_other_dx")
+        prev_shape = (shape, scls)
         if rng.random() < 0.3:
             dx = 1.0 / shape[-1]
             dxcls = "1/n"
